@@ -53,7 +53,7 @@ func mkBase(kind string) copyEnv {
 }
 
 // copyRun executes the real CopyFileHash / HashFile with the k-th consulted primitive failing (k<0: none).
-func copyRun(fn string, srcKind, dstKind string, hasher bool, size int, fails map[int]bool) string {
+func copyRun(fn string, srcKind, dstKind string, hasher bool, size int, fails map[int]bool, srcMode os.FileMode) string {
 	se, de := mkBase(srcKind), mkBase(dstKind)
 	defer se.cleanup()
 	defer de.cleanup()
@@ -63,13 +63,14 @@ func copyRun(fn string, srcKind, dstKind string, hasher bool, size int, fails ma
 	if err := se.base.WriteFile(srcPath, data, 0o600); err != nil {
 		return "setup-error " + err.Error()
 	}
-	_ = se.base.Chmod(srcPath, 0o600)
+	_ = se.base.Chmod(srcPath, srcMode)
 	// the destination already exists and is longer than the source: a copy replaces it, it does not overlay it
 	old := make([]byte, size+100)
 	for i := range old {
 		old[i] = 0xEE
 	}
-	_ = de.base.WriteFile(dstPath, old, 0o644)
+	_ = de.base.WriteFile(dstPath, old, 0o640)
+	_ = de.base.Chmod(dstPath, 0o640) // differs from every source mode used and from the mode Create gives a new file
 	ctr := 0
 	var trace []string
 	ff := func(side string) failfs.FailFunc {
@@ -163,7 +164,7 @@ func copyRun(fn string, srcKind, dstKind string, hasher bool, size int, fails ma
 			return fmt.Sprintf("err=%v dst=none %s trace=%s", err != nil, sumS(sum), compress())
 		}
 		perm := "other"
-		if info.Mode().Perm() == 0o600 {
+		if info.Mode().Perm() == srcMode {
 			perm = "src"
 		}
 		dstS = fmt.Sprintf("dst=%d:%v:%s", len(got), bytes.Equal(got, data), perm)
@@ -204,13 +205,14 @@ func copyOracle(line string) string {
 
 func corrCopy(seed uint64, tier string, replay []string) *lib.Result {
 	res := &lib.Result{Property: "C16",
-		Rule: "CopyFile/CopyFileHash/HashFile through FailFS on both sides, onto a destination that already exists and is longer than the source; for every (size in {0,1,32767,32768,32769,65536,100000}, source fs, destination fs, hasher on/off): the no-fault run and EVERY single-fault plan 'the k-th consulted primitive fails' (k over all invocations of that run; exhaustive per configuration); thorough adds all double-fault plans for small sizes and random sizes; a case is one run; distinct non-trivial = distinct (fs pair, size class, failed primitive kind, outcome)"}
+		Rule: "CopyFile/CopyFileHash/HashFile through FailFS on both sides, onto a destination that already exists, is longer than the source and has another mode (0640), the source having mode 0600 or 0644 (= the mode of a newly created file) in turn; for every (size in {0,1,32767,32768,32769,65536,100000}, source fs, destination fs, hasher on/off): the no-fault run and EVERY single-fault plan 'the k-th consulted primitive fails' (k over all invocations of that run; exhaustive per configuration); thorough adds all double-fault plans for small sizes and random sizes; a case is one run; distinct non-trivial = distinct (fs pair, size class, failed primitive kind, outcome)"}
 	st := lib.NewStats()
 	kinds := []string{"memfs", "orefafs", "osfs"}
 	sizes := []int{0, 1, 32767, 32768, 32769, 65536, 100000}
 	type job struct {
 		line     string
 		src, dst string
+		mode     os.FileMode
 	}
 	var jobs []job
 	if replay != nil {
@@ -227,7 +229,15 @@ func corrCopy(seed uint64, tier string, replay []string) *lib.Result {
 					core = append(core, x)
 				}
 			}
-			jobs = append(jobs, job{strings.Join(core, " "), src, dst})
+			mode := os.FileMode(0o600)
+			for _, x := range f {
+				if strings.HasPrefix(x, "@") {
+					if p := strings.Split(x[1:], ","); len(p) > 2 && p[2] == "644" {
+						mode = 0o644
+					}
+				}
+			}
+			jobs = append(jobs, job{strings.Join(core, " "), src, dst, mode})
 		}
 	} else {
 		r := lib.NewRng(seed)
@@ -236,22 +246,29 @@ func corrCopy(seed uint64, tier string, replay []string) *lib.Result {
 				sizes = append(sizes, r.Intn(1<<20))
 			}
 		}
+		cfgN := 0
 		for _, sk := range kinds {
 			for _, dk := range kinds {
 				for _, sz := range sizes {
 					for _, h := range []int{0, 1} {
+						// the source has mode 0600, or 0644 = what Create gives a new file under the usual umask
+						cfgN++
+						mode := os.FileMode(0o600)
+						if cfgN%2 == 1 {
+							mode = 0o644
+						}
 						// count primitives of the fault-free run
-						base := copyRun("cfh", sk, dk, h == 1, sz, nil)
+						base := copyRun("cfh", sk, dk, h == 1, sz, nil, mode)
 						n := 2*((sz+32767)/32768) + 8
-						jobs = append(jobs, job{fmt.Sprintf("copy cfh %d %d -1", h, sz), sk, dk})
+						jobs = append(jobs, job{fmt.Sprintf("copy cfh %d %d -1", h, sz), sk, dk, mode})
 						_ = base
 						for k := 0; k < n; k++ {
-							jobs = append(jobs, job{fmt.Sprintf("copy cfh %d %d %d", h, sz, k), sk, dk})
+							jobs = append(jobs, job{fmt.Sprintf("copy cfh %d %d %d", h, sz, k), sk, dk, mode})
 						}
 						if tier == "thorough" && sz <= 32769 {
 							for k := 0; k < n; k++ {
 								for k2 := k + 1; k2 < n; k2++ {
-									jobs = append(jobs, job{fmt.Sprintf("copy cfh %d %d %d %d", h, sz, k, k2), sk, dk})
+									jobs = append(jobs, job{fmt.Sprintf("copy cfh %d %d %d %d", h, sz, k, k2), sk, dk, mode})
 								}
 							}
 						}
@@ -261,7 +278,7 @@ func corrCopy(seed uint64, tier string, replay []string) *lib.Result {
 			for _, sz := range sizes {
 				n := (sz+32767)/32768 + 3
 				for k := -1; k < n; k++ {
-					jobs = append(jobs, job{fmt.Sprintf("copy hash %d %d", sz, k), sk, sk})
+					jobs = append(jobs, job{fmt.Sprintf("copy hash %d %d", sz, k), sk, sk, 0o600})
 				}
 			}
 		}
@@ -283,13 +300,13 @@ func corrCopy(seed uint64, tier string, replay []string) *lib.Result {
 		if f[1] == "hash" {
 			k, _ := strconv.Atoi(f[3])
 			fails[k] = true
-			impl = copyRun("hash", j.src, j.dst, true, atoi(f[2]), fails)
+			impl = copyRun("hash", j.src, j.dst, true, atoi(f[2]), fails, j.mode)
 		} else {
 			for _, x := range f[4:] {
 				k, _ := strconv.Atoi(x)
 				fails[k] = true
 			}
-			impl = copyRun("cfh", j.src, j.dst, f[2] == "1", atoi(f[3]), fails)
+			impl = copyRun("cfh", j.src, j.dst, f[2] == "1", atoi(f[3]), fails, j.mode)
 		}
 		failedEv := "none"
 		for _, e := range strings.Split(impl[strings.Index(impl, "trace=")+6:], ",") {
@@ -320,7 +337,7 @@ func corrCopy(seed uint64, tier string, replay []string) *lib.Result {
 		}
 		seen[sig] = true
 		res.Mismatches = append(res.Mismatches, lib.Mismatch{Kind: kind, Class: "corr-impl copy", What: what,
-			History: []string{j.line + " @" + j.src + "," + j.dst}, Impl: []string{impl}, Model: []string{model[i]}})
+			History: []string{j.line + " @" + j.src + "," + j.dst + fmt.Sprintf(",%o", j.mode)}, Impl: []string{impl}, Model: []string{model[i]}})
 	}
 	st.Fill(res)
 	res.Exhaustive = replay == nil
